@@ -421,6 +421,13 @@ func c30(c *vc.Ctx) {
 	}
 
 	complete := true
+	parts := os.Getenv("VERIF_C30_PARTS") // development aid: "reset" or "incr"
+	if parts != "" {
+		c.CapNote("VERIF_C30_PARTS=%s: only one clause was run", parts)
+	}
+	if parts == "incr" {
+		maxDepth = -1
+	}
 	// ---- clause 1: level-synchronous BFS
 	frontier := make([][][]int, ncfg)
 	for i := range frontier {
@@ -523,7 +530,7 @@ func c30(c *vc.Ctx) {
 	}
 
 	// ---- clause 2
-	if complete {
+	if complete && parts != "reset" {
 		ok := vc.Run(c, func(emit func(c30Case)) {
 			c30IncrPrograms(c, emit)
 		}, run)
